@@ -101,8 +101,8 @@ def oracle(case):
             w = wref(L, cfg["psll"])
             Sx = tol.seg_scale(x1, D, L, w, order)
             Sy = Sx if y1 is None else tol.seg_scale(y1, D, L, w, order)
-            bx, by, bxy = tol.budget2(L, om, Sx), tol.budget2(L, om, Sy), tol.budget2(L, om, (Sx ** 0.5 * Sy ** 0.5))
-            b4 = tol.budget4(L, om, Sx, Sy)
+            bx, by, bxy = tol.budget2(L, om, Sx, len(D)), tol.budget2(L, om, Sy, len(D)), tol.budget2(L, om, (Sx ** 0.5 * Sy ** 0.5), len(D))
+            b4 = tol.budget4(L, om, Sx, Sy, len(D))
             got1 = (float(r1.XX[j]), float(r1.YY[j]), complex(r1.XY[j]), float(r1.M2[j]))
             got0 = (float(r0.XX[j]), float(r0.YY[j]), complex(r0.XY[j]), float(r0.M2[j]))
             buds = (bx, by, bxy, b4)
@@ -124,8 +124,8 @@ def oracle(case):
                 # both analyses carry their own rounding: budget at the larger of the two record scales
                 Sx0 = tol.seg_scale(x, D, L, w, order)
                 Sy0 = Sx0 if y is None else tol.seg_scale(y, D, L, w, order)
-                buds0 = (tol.budget2(L, om, Sx0), tol.budget2(L, om, Sy0), tol.budget2(L, om, (Sx0 ** 0.5 * Sy0 ** 0.5)),
-                         tol.budget4(L, om, Sx0, Sy0))
+                buds0 = (tol.budget2(L, om, Sx0, len(D)), tol.budget2(L, om, Sy0, len(D)), tol.budget2(L, om, (Sx0 ** 0.5 * Sy0 ** 0.5), len(D)),
+                         tol.budget4(L, om, Sx0, Sy0, len(D)))
                 for nm, a, b, bud in zip(names, got1, got0, [max(u, v) for u, v in zip(buds, buds0)]):
                     if not abs(a - b) <= 4 * bud:
                         viol.append(V("trend_not_removed", backend=be, stat=nm, with_trend=a, without=b, budget=4 * bud,
